@@ -23,6 +23,8 @@ Definition enc_cmd (c : cmd) : list Z :=
   | CSgr l => csi l 109
   | CDsr n => csi [n] 110
   | CHt => [9]
+  | CSo => [14] | CSi => [15]
+  | CDesig g c => [27; (if g =? 0 then 40 else 41); c]
   end.
 Definition enc_cmds (cs : list cmd) : list Z := flat_map enc_cmd cs.
 
@@ -32,6 +34,7 @@ Definition cmd_ok (c : cmd) : bool :=
   | CCh ch => (32 <=? ch) && (ch <=? 126)
   | CEl m | CEd m => (m <=? 2)
   | CDsr n => (n =? 5) || (n =? 6)
+  | CDesig g c => ((g =? 0) || (g =? 1)) && ((c =? 48) || (c =? 66))
   | CSgr l => forallb (fun n => memz n [-1; 0; 1; 4; 5; 7; 24; 25; 27; 30; 31; 32; 33; 34; 35; 36; 37; 39;
                                           40; 41; 42; 43; 44; 45; 46; 47; 49]) l
   | _ => true
@@ -55,8 +58,8 @@ Definition rattr_eqb (a b : rattr) : bool :=
   oz_eqb (r_fg a) (r_fg b) && oz_eqb (r_bg a) (r_bg b) && Bool.eqb (r_bold a) (r_bold b)
   && Bool.eqb (r_ul a) (r_ul b) && Bool.eqb (r_blink a) (r_blink b) && Bool.eqb (r_rev a) (r_rev b).
 Definition cell_agrees (c : cell) (r : rcell) : bool :=
-  let '(a, _, ch) := c in
-  list_eqb ch [fst r] && match snd r with None => true | Some ra => rattr_eqb (attr_as_ref a) ra end.
+  let '(a, cs, ch) := c in
+  list_eqb ch [fst r] && match snd r with None => true | Some (ra, rcs) => rattr_eqb (attr_as_ref a) ra && (cs =? rcs) end.
 Fixpoint all2 {A B} (f : A -> B -> bool) (l : list A) (m : list B) : bool :=
   match l, m with
   | [], [] => true
@@ -108,6 +111,8 @@ Definition dec_cmd (l : list Z) : option (cmd * list Z) :=
   | 17 :: a :: b :: r => Some (CStbm a b, r)
   | 19 :: n :: r => Some (CDsr n, r)
   | 20 :: r => Some (CHt, r)
+  | 21 :: r => Some (CSo, r) | 22 :: r => Some (CSi, r)
+  | 23 :: g :: c :: r => Some (CDesig g c, r)
   | 18 :: r => match dec_list r with Some (l, r') => Some (CSgr l, r') | None => None end
   | _ => None
   end.
@@ -123,14 +128,16 @@ Definition enc_rattr (a : option rattr) : list Z :=
   | Some a => [1] ++ enc_oz (r_fg a) ++ enc_oz (r_bg a)
               ++ [enc_bool (r_bold a); enc_bool (r_ul a); enc_bool (r_blink a); enc_bool (r_rev a)]
   end.
-Definition enc_rcell (c : rcell) : list Z := fst c :: enc_rattr (snd c).
+Definition enc_rcell (c : rcell) : list Z :=
+  fst c :: match snd c with None => [0] | Some (a, cs) => enc_rattr (Some a) ++ [cs] end.
 Definition enc_rrows (g : list rrow) : list Z :=
   zlen g :: flat_map (fun r : rrow => zlen r :: flat_map enc_rcell r) g.
 Definition enc_vt (v : vt) : list Z :=
   [v_w v; v_h v] ++ enc_rrows (v_g v)
   ++ [v_x v; v_y v; enc_bool (v_pend v); v_top v; v_bot v] ++ enc_rattr (Some (v_attr v))
   ++ enc_rrows (v_sb v) ++ [enc_bool (v_sbknown v)]
-  ++ (zlen (v_replies v) :: flat_map (fun r => match r with RStatusOk => [5; 0; 0] | RCursor a b => [6; a; b] end) (v_replies v)).
+  ++ (zlen (v_replies v) :: flat_map (fun r => match r with RStatusOk => [5; 0; 0] | RCursor a b => [6; a; b] end) (v_replies v))
+  ++ (let '(g0, g1, sh) := v_cs v in [g0; g1; sh]).
 
 (* case  = 0 <vterm case>                        -> the emulator model alone
          | 1 e w h cmd*                          -> the emulator model fed with enc_cmds, then -7 and
